@@ -370,6 +370,9 @@ def run(ctx, res):
     kind, out = call_impl([m], phases((1,)), [1.0], st0)
     res.count("pre-repair model agrees with implementation" if kind == "ok" and old[0] == "ok"
               and C.close(C.hs2f(old[1:]), list(out.ravel())) else "pre-repair model differs from implementation")
+    # representation- and history-robustness of the public functions (harness/apirobust.py)
+    from .. import apirobust_cases as _AC
+    _AC.c10(res, np.random.default_rng(ctx["seed"] + 4242), ctx)
 
 
 def replay(data):
